@@ -137,7 +137,15 @@ def check_function(facts, fn, res, rule, nbparticles_field="nbParticles"):
                     continue
                 recognised.add(id(x))
                 n += 1
-                key = "%s = %s" % (facts.ntext(kids(x)[0]), facts.ntext(kids(x)[1]))
+                def render(e):
+                    # from the nodes, not the source text: inside a spliced helper the source spells the helper's parameter names
+                    e = strip(e)
+                    if e.get("k") == "ArraySubscriptExpr":
+                        return "%s[%s]" % (render(kids(e)[0]), render(kids(e)[1]))
+                    if e.get("k") == "DeclRefExpr" and e.get("name"):
+                        return e["name"]
+                    return facts.ntext(e)
+                key = "%s = %s" % (render(kids(x)[0]), render(kids(x)[1]))
                 res.instance(rule, "%s @%d" % (fn["qname"], x["l"][1]), facts.loc(x),
                              "%s ; extents %s / %s ; domains %s / %s" % (key, sides[0]["extent"], sides[1]["extent"], sides[0]["dom"], sides[1]["dom"]))
                 for s in sides:
@@ -262,6 +270,10 @@ def helper_copy(facts, fn, lm, call, decls, res, rule):
         if a0.get("k") in ("MemberExpr", "CXXDependentScopeMemberExpr") and a0.get("name") == "nbParticles" and kids(a0) and strip(kids(a0)[0]).get("did") == lm.header:
             bind[p_["did"]] = N
             continue
+        if a0.get("k") == "DeclRefExpr" and a0.get("dk") in ("NonTypeTemplateParm", "Var") and not a0.get("local"):
+            # a compile-time constant of the class (the number of values per particle) handed down as a loop bound
+            bind[p_["did"]] = sympy.Symbol(a0["name"], integer=True, positive=True)
+            continue
         raise AnalysisBroken("%s: argument `%s` of the copy helper %s is not one of (per-particle array, original indexes, per-leaf rows, particle count)" % (facts.loc(a), facts.ntext(a)[:50], nm))
     it = copyrel.Interp(facts, g, bind)
     it.run(tbf.body(g))
@@ -296,6 +308,16 @@ def helper_copy(facts, fn, lm, call, decls, res, rule):
             continue
         if not copyrel.position_sweeps(sympy.sympify(p1), ft.loops, N):
             raise AnalysisBroken("%s: cannot show that leaf position `%s` sweeps [0, number of particles of the leaf) exactly once" % (facts.loc(ft.node), p1))
+        # the value index sweeps the value extent of both arrays (a bound handed down as an argument must be the constant the arrays were declared with)
+        for lsym, llo, lhi, lstep, lnode in ft.loops:
+            if sympy.sympify(v1) == lsym and isinstance(lhi, sympy.Symbol) and str(lhi) != "N":
+                for role in ("DEST", "LEAF"):
+                    if role in roles and roles[role][1] is not None:
+                        ext = roles[role][1][0]
+                        want = ext[1] if role == "DEST" else ext[0]
+                        if isinstance(want, tuple) and want[0] == "value" and want[1] != str(lhi):
+                            res.violation(rule, tbf.rel(facts.path_of(call)), fn["qname"], "value-range@%d" % call["l"][1], call["l"][1],
+                                          "the helper %s copies value rows [0, %s) but '%s' holds %s values per particle: values are dropped or read past the rows" % (nm, lhi, roles[role][0]["name"], want[1]))
     _helper_done[key] = True
     return True
 
